@@ -7,6 +7,7 @@ R2  registry integrity: allowed_keywords is appended only by add_keyword; every 
 R3  case-insensitivity on both sides (to_lower_cppstr in add_keyword, key_lookup, check_keywords)
 R4  CRLF: configuration/state text lines are read through colvarmodule::getline
 R5  typed extraction failures raise
+R7  keywords looked up in a text that is not keyword-checked are removed from the registry before the function returns
 R6  end-of-text tests of the scanners are satisfiable: a cursor that is only ever set to positions inside the text it
     scans or to the size of that text is compared with that size by an operator that holds at equality
 """
@@ -620,6 +621,43 @@ def r6(F, rep):
     rep.count("bounded_cursor_tests", n)
 
 
+def r7(F, rep):
+    rep.rule("C09-R7", "registry hygiene: a keyword lookup made through a parser object held in a member (it outlives the call) "
+                       "in a local text that the function never passes to check_keywords() on that object cannot reach the "
+                       "function's exit without passing through clear_keyword_registry()/clear() on the object: leftovers "
+                       "(allowed keywords, value positions) would be applied to the next configuration parsed through it")
+    n = 0
+    for f in F.funcs.values():
+        if "/src/" not in f.file or f.cls == "colvarparse" or f.body is None:
+            continue
+        checked = set()
+        for c in X.calls(f):
+            if X.callee_name(c) == CHECK_PRIM and X.receiver(c) is not None and X.call_args(c):
+                checked.add((X.key(X.receiver(c), f), X.key(X.call_args(c)[0], f)))
+        for l in X.calls(f):
+            if l["k"] != "CXXMemberCallExpr" or X.callee_name(l) not in PARSE_PRIMS or X.receiver(l) is None or not X.call_args(l):
+                continue
+            r = X.strip(X.receiver(l))
+            while r["k"] in ("UnaryOperator", "ImplicitCastExpr") and X.kids(r):
+                r = X.strip(X.kids(r)[0])
+            if r["k"] != "MemberExpr":
+                continue                      # `this` (the object parses its own block) or a local parser
+            obj = X.key(X.receiver(l), f)
+            t = X.strip(X.call_args(l)[0])
+            if t["k"] != "DeclRefExpr" or t.get("st") != "local" or (obj, X.key(t, f)) in checked:
+                continue
+            n += 1
+            cl = [c for c in X.calls(f) if c.get("cq") in ("colvarparse::clear_keyword_registry", "colvarparse::clear") and
+                  X.receiver(c) is not None and X.key(X.receiver(c), f) == obj]
+            kw = X.key(X.call_args(l)[1], f) if len(X.call_args(l)) > 1 else "?"
+            ok = bool(cl) and not f.cfg.exits_from(l, avoiding=cl)
+            rep.add("C09-R7", "%s|%s|%s" % (f.q, X.re_strip(obj), kw), f.loc(l), "%s: lookup of %s in the local text `%s` through the long-lived parser `%s` (never keyword-checked) is followed by clear_keyword_registry() on every path to the exit: %s" % (
+                f.q, kw, t.get("n"), X.re_strip(obj), ok), ok,
+                detail="the next configuration handed to this parser would have the stale value ranges erased from it and the stale keywords accepted", func=f.q)
+    if n < 3:
+        raise AnalysisBroken("C09-R7: %d lookups followed by an explicit registry discharge found (state header: step, version, units expected)" % n)
+
+
 def run(F, rep, tier):
     R1(F, rep).run()
     r2(F, rep)
@@ -627,3 +665,4 @@ def run(F, rep, tier):
     r4(F, rep)
     r5(F, rep)
     r6(F, rep)
+    r7(F, rep)
